@@ -17,7 +17,7 @@ import (
 
 // C05 — a diff is empty exactly when the documents are equal; CLI exit 0/1.
 
-var c05OptSets = []string{"list", "set", "mset", "setkeys:id", "merge", "set+merge", "mset+merge", "set+mset", "mset+set"}
+var c05OptSets = []string{"list", "set", "mset", "setkeys:id", "setkeys:id,k", "merge", "set+merge", "mset+merge", "set+mset", "mset+set"}
 
 func checkC05(c PairCase, r *rec.Rec) error {
 	av, err := val.Parse(c.A)
@@ -32,6 +32,10 @@ func checkC05(c PairCase, r *rec.Rec) error {
 	viol := rec.Violated
 	if containsMagic(av, bv) {
 		viol = func(f string, a ...interface{}) error { return rec.Known("D15", f, a...) }
+	}
+	if ks := jdx.SetKeysOf(c.Opts); len(ks) >= 2 && (permutedKeyTuplesWithin(ks, av) || permutedKeyTuplesWithin(ks, bv)) {
+		// Known finding D21: two members of one array with key tuples (x,y) and (y,x) share one identity.
+		viol = func(f string, a ...interface{}) error { return rec.Known("D21", f, a...) }
 	}
 	equal := jdx.NodeText(c.A).Equals(jdx.NodeText(c.B), opts...)
 	d, pmsg, panicked := jdx.DiffSafe(jdx.NodeText(c.A), jdx.NodeText(c.B), opts)
@@ -319,6 +323,12 @@ func optFlags(opts string) []string {
 
 func genC05CLI(t *rapid.T) CLIPairCase {
 	pc := genC05(t)
+	if pc.Opts == "setkeys:id,k" {
+		pc = genC05(t) // the two-key option set is decided in the library leg (D21 predicate)
+		if pc.Opts == "setkeys:id,k" {
+			pc.Opts = "list"
+		}
+	}
 	c := CLIPairCase{A: pc.A, B: pc.B, Bin: gen.Pick(t, "bin", []string{"jd-v2", "jd-top", "jd-top-v1"})}
 	c.Flags = optFlags(pc.Opts)
 	if !jdx.IsMerge(pc.Opts) {
